@@ -260,3 +260,7 @@ for mech, rs in (('ads+des', [R_ADS, R_DES]), ('surf-noTS', [R_SURF])):
                            ads_act_method=Const(act), act_unit=Const('kcal/mol'), float_format=Const(' .3E'),
                            column_delimiter=Const('  '), sden_operation=Const('min'), T=T),
                  ghost=dict(site=SITE), requires=['T > 0', 'site.site_density > 0'], ensures=ens, cross_check=False)
+
+# ---- shared helpers behind the pre-exponential factor / the condition routing --------------------------------------------
+from contracts import helpers
+helpers.install(P, 'numpy_op', 'kwargs')
